@@ -3,6 +3,7 @@
    Every theorem says: no unrelated exception and no OutOfFuel (termination), for every input text.
    Definitions: C06/Model.v, C07/Model.v, C13/Model.v; except clauses and decode modes: C07/Gen.v (regenerated). *)
 From Coq Require Import ZArith.
+From Wz Require C13.Gen.
 From Wz Require Import lib.Bytes lib.Utf8 C06.LibPy C06.Gen C06.Model C07.Gen C07.Model C07.Proofs C07.Proofs2.
 Open Scope N_scope.
 
@@ -94,6 +95,20 @@ Theorem C07_total_query_text : forall q, forallb (fun c => c <? 256) q = true ->
   (exists t, query_text args_decode_replace q = Ok t) /\ (exists t, query_text full_path_decode_replace q = Ok t).
 Proof. exact (fun q H => conj (query_text_total q H) (query_text_total q H)). Qed.
 Print Assumptions C07_total_query_text.
+
+(* Request.args hands parse_qsl no max_num_fields and no strict_parsing (keywords regenerated from the source),
+   so neither of parse_qsl's own ValueErrors can be raised, whatever the number or shape of the fields *)
+Theorem C07_total_request_args_checks : forall qs, request_args_checks qs = Ok tt.
+Proof. exact request_args_checks_total. Qed.
+Print Assumptions C07_total_request_args_checks.
+
+(* the cookie regex texts behind the C13 matchers used above are those of the current source *)
+Theorem C07_cookie_patterns_pinned :
+  list_eqb Wz.C13.Gen.cookie_unslash_re_text [92; 92; 40; 91; 48; 45; 51; 93; 91; 48; 45; 55; 93; 123; 50; 125; 124; 46; 41]
+  && (Wz.C13.Gen.cookie_unslash_re_flags =? 0) && (Wz.C13.Gen.cookie_re_flags =? 320)
+  && (N.of_nat (length Wz.C13.Gen.cookie_re_text) =? 114) && (weighted_sum Wz.C13.Gen.cookie_re_text 1 =? 292951) = true.
+Proof. exact cookie_patterns_pinned. Qed.
+Print Assumptions C07_cookie_patterns_pinned.
 
 (* the port of the reconstructed URL (urlsplit(...).port inside uri_to_iri): the full statement is false *)
 Theorem C07_url_port_refuted : exists host, url_port host = Err ValueError.
